@@ -76,7 +76,7 @@ SCAL = {"a": 0.3125, "b": -2.5, "c": 4.0, "k": -0.5, "g": -2.5}
 
 
 def bounds(tier):
-    return {"tier": tier, "families": ["P1 properties", "P2 unary methods / operators", "P3 binary methods / operators", "P4 constructors", "P5 chains of two calls", "P6 Awkward loops"],
+    return {"tier": tier, "families": ["P1 properties", "P2 unary methods / operators", "P3 binary methods / operators", "P4 constructors", "P5 chains of two calls", "P6 Awkward loops", "P7 compile histories (both flavors and sibling systems in one process)"],
             "type_signatures": "P1, P2, P6: 20 systems x 2 flavors; P3: diagonal+cross system pairs x flavor pairs (all pairs in thorough); P4: 40 spellings; P5: 4 systems per dimension (all in thorough)",
             "tolerance": "1e-12 relative"}
 
@@ -102,6 +102,9 @@ def shards(tier):
     for dim in (2, 3, 4):
         for s in L.SYSTEMS[dim]:
             out.append({"fam": "P4", "dim": dim, "sys": list(s)})
+    for dim in (2, 3, 4):
+        for s in L.SYSTEMS[dim]:
+            out.append({"fam": "P7", "dim": dim, "sys": list(s)})
     for dim in (2, 3, 4):
         systems = L.SYSTEMS[dim] if tier == "thorough" else [L.SYSTEMS[dim][0], L.SYSTEMS[dim][-1]] + ([L.SYSTEMS[dim][len(L.SYSTEMS[dim]) // 2], L.SYSTEMS[dim][1]] if dim > 2 else [])
         for s in dict.fromkeys(systems):
@@ -333,6 +336,19 @@ def run_shard(shard, tier):
             run_batch(res, fam, members[i : i + 16], ["v", "a", "k"], args, sigstr(dim, system, flavor), dict(case, batch=i // 16))
     elif fam == "P6":
         run_awkward_loops(res, dim, system, flavor, tier, case)
+    elif fam == "P7":
+        # compile history inside one process: the same members for both flavors of this system and for the sibling systems that differ
+        # from it in exactly one coordinate group, one after the other, and for the first one again (type-keyed caches in the
+        # Numba backend must key on everything that distinguishes two vector types)
+        members = ["v", "-v", "v.scale(k)", "v.rotateZ(a)", "v.unit()"] + (["v.rotate_euler(a, b, c, 'yzx')", "v.rotateX(a)", "v.to_Vector2D()"] if dim >= 3 else []) + (["v.boostX(beta=a)", "v.to_Vector3D()", "v.to_beta3()"] if dim == 4 else [])
+        siblings = [s_ for s_ in L.SYSTEMS[dim] if sum(1 for p_, q_ in zip(s_, system) if p_ != q_) == 1]
+        seq = [(system, "generic"), (system, "momentum")] + [(s_, ("momentum", "generic")[i % 2]) for i, s_ in enumerate(siblings)] + [(system, "generic"), (system, "momentum")]
+        for step, (sy, fl) in enumerate(seq):
+            vv = vectors_for(dim, sy, fl, tier, n=1)
+            if not vv:
+                continue
+            args = [(vv[0], SCAL["a"], SCAL["b"], SCAL["c"], SCAL["k"])]
+            run_batch(res, fam, members, ["v", "a", "b", "c", "k"], args, sigstr(dim, sy, fl) + f"|step{step}-after-{L.sysname(system)}", dict(case, step=step, step_sys=list(sy), step_flavor=fl))
     if system == L.SYSTEMS[dim][-1] and flavor == "momentum" or fam == "P4" and dim == 4 and system == L.SYSTEMS[4][0]:
         res.sample({"family": fam, "signature": sigstr(dim, system, flavor), "members": {"P1": "all properties", "P2": UNARY[dim][:6], "P3": BINARY_SAME[:6], "P4": "vector.obj(<names>=...)", "P5": "v.<op1>.<op2> chains", "P6": "for ev in arr: for p in ev: acc += p.<property or method>"}.get(fam)})
     return res
